@@ -258,7 +258,10 @@ def judge(part, mix, interval, script):
             if e[0] != "update" or e[1] != nm:
                 return bad("order|update", "the market update does not follow on_bar for every market once, in order", {"bar": i, "event": str(e[:3])})
             if k == 0 and any(e[3].values()):
-                part.count("pending_write_not_refreshed")  # not part of this property's statement; its consequence (fees of liquidity added in the bar) is C08's
+                # the market update of a bar sees what the strategy did in the bar: every market that was written to has been refreshed before the first
+                # update() (the direct driver of the other checks relies on exactly this call sequence, DESIGN section 4)
+                return bad("order|write-not-refreshed-before-update", "a market that was written to in the bar was not refreshed before the market update ran",
+                           {"bar": i, "pending": {kk: vv for kk, vv in e[3].items() if vv}})
         # 8. after_bar
         e = nxt()
         if e[0] != "after_bar" or e[1] != i or e[2] != t:
@@ -379,6 +382,10 @@ def cases(thorough):
                 for hook in ("on_bar", "after_bar", "trigger"):
                     out.append((mix, interval, [(1, hook, "deribit.deposit[part]")]))
                 out.append((mix, interval, [(0, "on_bar", "deribit.deposit[part]"), (31, "on_bar", "deribit.withdraw[part]")]))
+            if mix == "uni+aave":
+                # a write in the market registered LAST while the first one is left alone
+                for hook in ("on_bar", "before_bar"):
+                    out.append((mix, interval, [(min(1, n_bars - 1), hook, "aave.supply[WETH,part,C]")]))
             if n_raw <= 60 and interval == "1min":
                 out.append((mix, interval, [(-2, "finalize", good[0]), (-2, "rerun", "-")]))
                 out.append((mix, interval, [(0, "on_bar", good[0]), (-2, "finalize", good[-1]), (-2, "rerun", "-")]))
